@@ -143,8 +143,11 @@ def _delay(seed, t):
     return (h % 1000) / 1000.0
 
 
+FALSY = {"none": None, "zero": 0, "false": False, "emptystr": "", "emptylist": []}
+
+
 def make_probe(name, params, nout=1, log=None, internal_shape=None, ret_list=False, fault=None,
-               defaults=None, tag=None, hook=None):
+               defaults=None, tag=None, hook=None, ret=None):
     """Build a probe.  fault = {"raise": {term: exc_spec}, "raise_nth": [n, exc_spec],
     "delay": [seed, max_ms], "kill": {term: exitcode}}.  The function accepts keyword (and
     positional) arguments named `params`; `defaults` become signature defaults."""
@@ -192,6 +195,10 @@ def make_probe(name, params, nout=1, log=None, internal_shape=None, ret_list=Fal
                 return base
 
             out = one(0) if nout == 1 else tuple(one(o) for o in range(nout))
+            if ret is not None:  # a falsy / None-valued result (first output only for tuple outputs)
+                fv = FALSY[ret]
+                fv = list(fv) if isinstance(fv, list) else fv
+                out = fv if nout == 1 else (fv, *out[1:])
         except BaseException:
             if log:
                 log_write(log, {"e": "E", "c": cid, "t": time.monotonic_ns(), "o": "raise"})
